@@ -5,6 +5,7 @@ import (
 	sdkerrors "github.com/cosmos/cosmos-sdk/types/errors"
 	govtypes "github.com/cosmos/cosmos-sdk/x/gov/types"
 
+	teletypes "github.com/teleport-network/teleport/types"
 	"github.com/teleport-network/teleport/x/xibc/core/client/keeper"
 	"github.com/teleport-network/teleport/x/xibc/core/client/types"
 )
@@ -34,7 +35,7 @@ func handleCreateClientProposal(ctx sdk.Context, k keeper.Keeper, p *types.Creat
 		return err
 	}
 
-	_ = ctx.EventManager().EmitTypedEvent(&types.EventCreateClientProposal{
+	_ = teletypes.EmitTypedEvent(ctx, &types.EventCreateClientProposal{
 		ChainName:       p.ChainName,
 		ClientType:      clientState.ClientType(),
 		ConsensusHeight: clientState.GetLatestHeight().String(),
@@ -50,7 +51,7 @@ func handleUpgradeClientProposal(ctx sdk.Context, k keeper.Keeper, p *types.Upgr
 		return err
 	}
 
-	_ = ctx.EventManager().EmitTypedEvent(&types.EventUpgradeClientProposal{
+	_ = teletypes.EmitTypedEvent(ctx, &types.EventUpgradeClientProposal{
 		ChainName:       p.ChainName,
 		ClientType:      upgradedClientState.ClientType(),
 		ConsensusHeight: upgradedClientState.GetLatestHeight().String(),
@@ -66,7 +67,7 @@ func handleToggleClientProposal(ctx sdk.Context, k keeper.Keeper, p *types.Toggl
 		return err
 	}
 
-	_ = ctx.EventManager().EmitTypedEvent(&types.EventToggleClientProposal{
+	_ = teletypes.EmitTypedEvent(ctx, &types.EventToggleClientProposal{
 		ChainName:       p.ChainName,
 		ClientType:      clientState.ClientType(),
 		ConsensusHeight: clientState.GetLatestHeight().String(),
@@ -81,7 +82,7 @@ func handleRegisterRelayerProposal(ctx sdk.Context, k keeper.Keeper, p *types.Re
 		return err
 	}
 
-	_ = ctx.EventManager().EmitTypedEvent(&types.EventRegisterRelayerProposal{
+	_ = teletypes.EmitTypedEvent(ctx, &types.EventRegisterRelayerProposal{
 		Address:   p.Address,
 		Chains:    p.Chains,
 		Addresses: p.Addresses,
